@@ -11,7 +11,9 @@
   (`ℝ → ℂ` for complex operators, `ℝ → ℝ` for real ones) that satisfies the per-class facts
   `I.Sound R K` (the trusted primitive table, explicit hypotheses), and every program `p` of any length,
   `check p = linC` ⇒ `run I p` is `K`-linear, `check p = linR` ⇒ `R`-linear,
-  `check p = const true` ⇒ identically zero.
+  `check p = antiC` ⇒ conjugate-linear, `check p = const true` ⇒ identically zero.
+  (Conjugate-linearity is tracked so that `conj ∘ A ∘ conj` – the shape of every adjoint derived by
+  `scico.linear_adjoint` for a complex operator and of `A.T`, `A.conj()` – is recognised as ℂ-linear.)
 -/
 import Scico.Proofs.Jaxpr
 import Scico.Proofs.JaxprExample
@@ -22,7 +24,7 @@ namespace Scico.Props.C06
 open Scico.Jaxpr
 
 section
-variable {R K V : Type} [CommSemiring R] [CommSemiring K] [Algebra R K]
+variable {R K V : Type} [CommSemiring R] [CommSemiring K] [StarRing K] [Algebra R K]
   [AddCommMonoid V] [Module R V] [Module K V] [IsScalarTower R K V]
 
 /-- **Soundness of the checker**, in the form the property is stated: a program the checker tags
@@ -57,7 +59,15 @@ theorem C06_check_linR_linearMap (I : Interp V) (hI : I.Sound R K) (p : Prog) (h
 /-- `linC` is the stronger verdict: it implies linearity over the sub-field as well -/
 theorem C06_linC_is_linR (I : Interp V) (hI : I.Sound R K) (p : Prog) (h : check p = .linC) :
     IsLinearMap R (run I p) :=
-  isLinearMap_restrict (K := K) (run_linC (R := R) hI p h)
+  (SemiLin.restrict (run_linC' (R := R) hI p h)).isLinearMap_real
+
+/-- a program tagged `antiC` (an odd number of conjugations) is additive and conjugate-homogeneous,
+    `f (c • x) = conj c • f x`; in particular it is `R`-linear -/
+theorem C06_check_antiC (I : Interp V) (hI : I.Sound R K) (p : Prog) (h : check p = .antiC) :
+    (∀ x y, run I p (x + y) = run I p x + run I p y) ∧
+    (∀ (c : K) x, run I p (c • x) = star c • run I p x) ∧ IsLinearMap R (run I p) :=
+  ⟨(run_antiC' (R := R) hI p h).1, (run_antiC' (R := R) hI p h).2,
+    (SemiLin.restrict_anti hI.star_real (run_antiC' (R := R) hI p h)).isLinearMap_real⟩
 
 /-- a program tagged `const z` ignores its input, and is identically zero when `z = true` -/
 theorem C06_check_const (I : Interp V) (hI : I.Sound R K) (p : Prog) (z : Bool) (h : check p = .const z) :
@@ -126,12 +136,18 @@ example (x : Fin 1 → Vc) (j) (i : ℕ) : run vecInterp fdProg x j i = x 0 (i +
 -- constants, a product with a constant, a quotient by a constant, a constant-predicate mask: accepted
 example : check scaleProg = .linC := by decide
 
--- conjugation: accepted as ℝ-linear only — and it is *not* ℂ-linear (f(i•1) = -i ≠ i = i•f(1))
-example : check conjProg = .linR := by decide
-example : ¬ IsLinearMap ℂ (run vecInterp conjProg) := conjProg_not_complex_linear
-example : IsLinearMap ℝ (run vecInterp conjProg) :=
-  (C06_check_linR_linearMap (K := ℂ) vecInterp vecInterp_sound conjProg (by decide)).elim
+-- real part: accepted as ℝ-linear only — and it is *not* ℂ-linear
+example : check reProg = .linR := by decide
+example : ¬ IsLinearMap ℂ (run vecInterp reProg) := reProg_not_complex_linear
+example : IsLinearMap ℝ (run vecInterp reProg) :=
+  (C06_check_linR_linearMap (K := ℂ) vecInterp vecInterp_sound reProg (by decide)).elim
     fun f hf => by rw [← funext hf]; exact f.isLinear
+
+-- one conjugation: conjugate-linear, not ℂ-linear (f(i•1) = -i ≠ i = i•f(1));
+-- conj ∘ (3·) ∘ conj (the shape of a derived complex adjoint): ℂ-linear again
+example : check conjProg = .antiC := by decide
+example : ¬ IsLinearMap ℂ (run vecInterp conjProg) := conjProg_not_complex_linear
+example : check conjConjProg = .linC := by decide
 
 -- x*x is rejected and really is not additive: f(1+1) = 4 ≠ 2 = f(1)+f(1)
 example : check sqProg = .bad := by decide
